@@ -13,19 +13,20 @@ def theorems(pid):
     t = re.sub(r"\(\*.*?\*\)", "", open(p).read(), flags=re.S)
     return len(re.findall(r"^\s*Theorem\s+", t, flags=re.M))
 
-def seeded(pid):
-    p = os.path.join(V, "seeded", pid, "results.json")
-    if not os.path.exists(p): return "not run"
+def seeded(pid, fname="results.json", prefix="m"):
+    p = os.path.join(V, "seeded", pid, fname)
+    if not os.path.exists(p): return "—"
     r = json.load(open(p)); out = []
     for k in sorted(k for k in r if k != "base"):
         v = r[k]
-        if not v.get("applied"): out.append("m%s n/a" % k)
-        elif v.get("with_failing_input"): out.append("m%s ✔" % k)
-        elif v.get("detected"): out.append("m%s ✔(no input)" % k)
-        else: out.append("m%s ✘" % k)
+        if not v.get("applied"): out.append("%s%s n/a" % (prefix, k))
+        elif prefix == "r": out.append("%s%s %s" % (prefix, k, "ok" if v.get("exit") == 0 else ("alarm(no input)" if not v.get("with_failing_input") else "FALSE ALARM")))
+        elif v.get("with_failing_input"): out.append("%s%s ✔" % (prefix, k))
+        elif v.get("detected"): out.append("%s%s ✔(no input)" % (prefix, k))
+        else: out.append("%s%s ✘" % (prefix, k))
     return ", ".join(out)
 
-rows = ["| id | theorems (Props/Cxx.v) | quick: cases / wall on an idle machine | findings (known_findings.json) | seeded blind changes (✔ = reported with a failing input) |", "|---|---|---|---|---|"]
+rows = ["| id | theorems (Props/Cxx.v) | quick: cases / wall | findings (known_findings.json) | blind changes round 1 (✔ = reported with a failing input) | blind changes round 2 | harmless refactors (ok = exit 0) |", "|---|---|---|---|---|---|---|"]
 for p in props:
     i = p["id"]
     ev = {}
@@ -35,7 +36,7 @@ for p in props:
     cov = ev.get("coverage", {})
     fs = [f for f in findings if f["property"] == i]
     ftxt = "; ".join("%s %s%s" % (f.get("id", "?"), f["status"], (" (" + str(f.get("commit") or f.get("fixed_by") or "") + ")") if f["status"] == "fixed" and (f.get("commit") or f.get("fixed_by")) else "") for f in fs) or "none"
-    rows.append("| %s | %d | %s / %s s (%s tier) | %s | %s |" % (i, theorems(i), cov.get("evaluations", "?"), ev.get("wall_s", "?"), ev.get("tier", "?"), ftxt, seeded(i)))
+    rows.append("| %s | %d | %s / %s s (%s tier) | %s | %s | %s | %s |" % (i, theorems(i), cov.get("evaluations", "?"), ev.get("wall_s", "?"), ev.get("tier", "?"), ftxt, seeded(i), seeded(i, "results_round2.json", "n"), seeded(i, "refactors.json", "r")))
 table = "\n".join(rows)
 
 app = []
